@@ -15,7 +15,7 @@ import copy
 import json
 import os
 
-FEATS = ("const", "setc", "tup", "dflt", "kwd", "lam", "nest")
+FEATS = ("const", "setc", "tup", "dflt", "kwd", "lam", "nest", "gx", "dcall")
 NESTS = (["alpha", "beta", "gamma", "delta"], ["alpha", "beta", "gamma", "epsilon"], ["north", "south", "east", "west", "up"])
 
 
@@ -34,7 +34,8 @@ def gen_prog(rng, nm=None, nh=None, nv=None, cyc_rate=0.15, hidden_rate=0.08, au
         d = dict(kind="memento" if n[0] == "m" else "plain", where=where, const=rng.randint(0, 9),
                  setc=rng.choice([None, None, ["a", "b"], ["alpha", "beta", "gamma", "delta"]]),
                  tup=rng.choice([None, [1, 2], [3]]), dflt=rng.choice([None, None, 1, 2]), kwd=rng.choice([None, None, 5]),
-                 lam=rng.choice([None, 0, 1]), nest=rng.choice([None, None, None, 0, 2]), refs=[])
+                 lam=rng.choice([None, 0, 1]), nest=rng.choice([None, None, None, 0, 2]),
+                 gx=rng.choice([None, None, None, "x", "y"]), dcall=rng.choice([None, None, None, 0, 1]), refs=[])
         if d["kind"] == "memento":
             d["explicit"] = ("e%d" % rng.randint(1, 3)) if rng.random() < explicit_rate else None
         else:
@@ -72,7 +73,7 @@ def gen_prog(rng, nm=None, nh=None, nv=None, cyc_rate=0.15, hidden_rate=0.08, au
         if d["kind"] == "plain" and not d.get("wrapped") and rng.random() < lambda_rate:
             # an anonymous helper bound to a module-level name: `h1 = lambda x: [...]` (all lambdas share one __qualname__)
             d["aslambda"] = True
-            d.update(setc=None, tup=None, dflt=None, kwd=None, lam=None, nest=None)
+            d.update(setc=None, tup=None, dflt=None, kwd=None, lam=None, nest=None, gx=None, dcall=None)
     # a variable whose name differs from another one only in case (rule keys that tie in a case-insensitive order)
     for n in [x for x in names if x[0] == "V"]:
         if rng.random() < twin_rate and defs[n]["value"] not in ("UNSUPPORTED",):
@@ -106,8 +107,8 @@ def edits(rng, prog, n=1):
                                                  "DICT_FROM_SET0", "DICT_FROM_SET1"] if v != old])
             log.append(["var", name])
             continue
-        kind = rng.choice(["const", "setc", "tup", "dflt", "kwd", "lam", "nest", "ref+", "ref-", "explicit"])
-        if d.get("aslambda") and kind in ("setc", "tup", "dflt", "kwd", "lam", "nest"):
+        kind = rng.choice(["const", "setc", "tup", "dflt", "kwd", "lam", "nest", "gx", "dcall", "ref+", "ref-", "explicit"])
+        if d.get("aslambda") and kind in ("setc", "tup", "dflt", "kwd", "lam", "nest", "gx", "dcall"):
             kind = "const"                # a lambda helper renders its constant and references only
         if kind == "const":
             d["const"] += 1
@@ -124,6 +125,10 @@ def edits(rng, prog, n=1):
             d["lam"] = rng.choice([x for x in [None, 0, 1, 2] if x != d["lam"]])
         elif kind == "nest":
             d["nest"] = rng.choice([x for x in [None, 0, 1, 2] if x != d.get("nest")])
+        elif kind == "gx":
+            d["gx"] = rng.choice([x for x in [None, "x", "y", "z"] if x != d.get("gx")])
+        elif kind == "dcall":
+            d["dcall"] = rng.choice([x for x in [None, 0, 1] if x != d.get("dcall")])
         elif kind == "ref+":
             idx = p["order"].index(name)
             cands = [x for x in p["order"][:idx] if [x, "bare"] not in d["refs"]
@@ -204,6 +209,9 @@ def render_def(name, d, prog, pkg):
     if d.get("nest") is not None:
         # a default value that holds a set two levels down (its repr depends on hash randomisation)
         params += ", w=((\"n\", frozenset({%s})),)" % ", ".join(repr(x) for x in NESTS[d["nest"]])
+    if d.get("dcall") is not None:
+        # a default value that is a callable (a plain function object: its repr holds an address)
+        params += ", g=%s" % ("_box", "_unbox")[d["dcall"]]
     if d["kwd"] is not None:
         params += ", *, z=%d" % d["kwd"]
     L = []
@@ -226,6 +234,11 @@ def render_def(name, d, prog, pkg):
         L.append("    r.append(z)")
     if d.get("nest") is not None:
         L.append("    r.append(sorted(w[0][1]))")
+    if d.get("gx") is not None:
+        # a generator expression whose first constant is a string
+        L.append("    r.append(','.join(%r + str(i) for i in range(2)))" % d["gx"])
+    if d.get("dcall") is not None:
+        L.append("    r.append(g(3).val)")
     if d["lam"] is not None:
         L.append("    r.append((lambda q: q + %d)(0))" % d["lam"])
     for t, form in d["refs"]:
@@ -309,6 +322,10 @@ class _Box:
 def _box(v):
     return _Box(v)
 
+
+def _unbox(v):
+    return _Box(-v)
+
 '''
 HEADER_AUX = '''from twosigma.memento import memento_function
 import functools
@@ -329,6 +346,10 @@ class _Box:
 
 def _box(v):
     return _Box(v)
+
+
+def _unbox(v):
+    return _Box(-v)
 
 '''
 
